@@ -358,6 +358,9 @@ def rule_e(repo, res, m, where):
         if isinstance(n, ast.If) and isinstance(n.test, ast.Compare) and const_str(n.test.comparators[0]) == "any" and cell in norm(n.test.left) and "lower()" in norm(n.test.left):
             anyc = [norm(b) for b in n.body] == ["%s = AnyValue()" % valv]
     res.check(lastv is not None and reset and not reset_outside and ditto, "C17.e", "ditto:previous-column-same-row", w, "a ditto cell must take the value of the previous column of the same row: the remembered value is updated last in the column loop (%s), reset to an empty set for every row (%s) and copied by the ditto branch (%s)" % (lastv is not None, reset and not reset_outside, ditto), by="last_value reset per row, updated per column, copied by ditto")
+    jumps = [x for x in ast.walk(col_loop) if isinstance(x, (ast.Continue, ast.Break, ast.Return))]
+    all_stores = [x for x in ast.walk(col_loop) if isinstance(x, ast.Assign) and isinstance(x.targets[0], ast.Subscript) and isinstance(x.targets[0].value, ast.Subscript) and dotted(x.targets[0].value.value) == outv]
+    res.check(not jumps and len(all_stores) == 1, "C17.e", "ditto:every-column-is-remembered", w, "every cell must reach the end of the column loop, where the value is stored and remembered for a following ditto: no continue/break/return in the loop (found %s) and a single store (found %d) -- a shortcut for some kind of cell would make the next ditto copy an older column" % ([type(j).__name__.lower() for j in jumps], len(all_stores)), by="no early exit from the column loop, one store")
     res.check(anyc, "C17.e", "any:wildcard", w, "a cell reading 'any' (case-insensitive, stripped) must become AnyValue()", by="value = AnyValue()")
     # value / range dispatch
     one = two = False
